@@ -130,3 +130,75 @@ def local_kinematics(fn, resolver):
             elif fam & KIN_F or "W_F.T" in s:
                 tags[name] = "F"
     return tags
+
+
+import re as _re
+
+F_ARRAY = _re.compile(r"^(la_F|P_F|Pi_F|dP_F|prox_r_F|gamma_F|xi_F|e_F)")
+N_ARRAY = _re.compile(r"^(la_N|P_N|Pi_N|dP_N|prox_r_N|g_N|xi_N|e_N)")
+
+
+def check_locality(fn, tags):
+    """Inside `for i_N, i_F, reservoir in <friction laws>` every friction-level array (kinematics, force iterate, prox parameter)
+    defined outside the loop must be used through `[... i_F ...]`, every normal-level array through `[... i_N ...]`: the
+    stick/slip decision and the projection of one contact may only look at that contact's own components.
+    Returns (n_checked, [(node, message)])."""
+    out = []
+    n_ok = 0
+    # kind by definition beats kind by name: `Pi_Nn1_contr = Pi_Fn1[la_FDOF]` holds friction percussions
+    by_def = {}
+    for n in ast.walk(fn):
+        if isinstance(n, ast.Assign) and len(n.targets) == 1 and isinstance(n.targets[0], ast.Name):
+            v = n.value
+            while isinstance(v, (ast.Subscript, ast.Attribute)):
+                v = v.value
+            base = v.id if isinstance(v, ast.Name) else None
+            if base and isinstance(n.value, ast.Subscript):
+                if F_ARRAY.match(base):
+                    by_def[n.targets[0].id] = "F"
+                elif N_ARRAY.match(base):
+                    by_def[n.targets[0].id] = "N"
+    for loop in ast.walk(fn):
+        if not (isinstance(loop, ast.For) and isinstance(loop.target, ast.Tuple) and len(loop.target.elts) == 3):
+            continue
+        names = [e.id for e in loop.target.elts if isinstance(e, ast.Name)]
+        if len(names) != 3 or names[0] != "i_N" or names[1] != "i_F":
+            continue
+        # per-contact locals: assigned inside the loop
+        local = set()
+        for n in ast.walk(loop):
+            if isinstance(n, ast.Assign):
+                for t in n.targets:
+                    if isinstance(t, ast.Name):
+                        local.add(t.id)
+        for b in loop.body:
+            for n in ast.walk(b):
+                nm = None
+                if isinstance(n, ast.Name) and isinstance(n.ctx, ast.Load):
+                    nm = n.id
+                elif isinstance(n, ast.Attribute) and isinstance(n.value, ast.Name) and n.value.id == "self":
+                    nm = n.attr
+                if nm is None or nm in local or nm in ("i_N", "i_F"):
+                    continue
+                kind = by_def.get(nm) or ("F" if (F_ARRAY.match(nm) or tags.get(nm) == "F") else ("N" if (N_ARRAY.match(nm) or tags.get(nm) == "N") else None))
+                if kind is None:
+                    continue
+                # climb: the occurrence must sit (as base) under a Subscript whose slice mentions the matching index
+                want = "i_F" if kind == "F" else "i_N"
+                p, cur, okk = getattr(n, "_parent", None), n, False
+                while isinstance(p, (ast.Subscript, ast.Attribute)) and (getattr(p, "value", None) is cur):
+                    if isinstance(p, ast.Subscript) and any(isinstance(x, ast.Name) and x.id == want for x in ast.walk(p.slice)):
+                        okk = True
+                        break
+                    cur, p = p, getattr(p, "_parent", None)
+                # store targets like y1[self.split_y[0] + la_FDOF[i_F]] = ... are fine (slice mentions i_F)
+                if okk:
+                    n_ok += 1
+                else:
+                    # whole-array store target / len(i_N) etc. are not uses of the array's values
+                    par = getattr(n, "_parent", None)
+                    if isinstance(par, ast.Call) and (dotted(par.func) or "") == "len":
+                        continue
+                    out.append((n, f"`{nm}` (a {'friction' if kind == 'F' else 'normal'}-level array of ALL contacts) is used inside the per-contact loop "
+                                   f"without the contact's own index `{want}`: the decision/projection of one contact depends on the other contacts"))
+    return n_ok, out
